@@ -178,7 +178,8 @@ def gen(seed, run, sub="pipe", tier="quick"):
     return {
         "lane": "c18", "sub": sub, "transport": transport, "via": r.choice(["delegate", "bare"]),
         "cfg": {"greeting": r.choice(["start", "", "start\necho:Marlin 2.1.2"]), "boot": r.choice([0.0, 0.05]),
-                "drop_while_booting": False, "resend_with_ok": True},
+                "drop_while_booting": False, "resend_with_ok": True,
+                "dev_eol": r.choice(["\n", "\n", "\r\n"])},
         "stmts": stmts, "replies": replies, "faults": faults, "ops": ops, "draws": draws, "eol": "\n",
         "readings": readings, "max_steps": 60000,
         "sched": common.gen_sched(r, "%s/%s/c18" % (seed, run), est_steps=300 + 250 * n),
